@@ -2,7 +2,7 @@
    The checker run on every document the implementation produces decides EXACTLY the
    property's clauses (a)-(g); (h)/(i) are checked on the serialised text by the harness. *)
 From Coq Require Import List NArith Bool.
-From RPFT Require Import Base.Sexp Base.PyStr Flow.Flow Flow.Closed.
+From RPFT Require Import Base.Sexp Base.PyStr Gen.Tables Flow.Flow Flow.Closed Flow.NodeIdCheck Flow.NodeIdCheckFacts.
 Import ListNotations.
 
 Theorem C01_closedb_spec : forall G d, closedb G d = true <-> Closed G d.
@@ -16,3 +16,30 @@ Print Assumptions C01_flow_closedb_spec.
 Theorem C01_node_closedb_spec : forall f nd, node_closedb f nd = true <-> NodeClosed f nd.
 Proof. exact node_closedb_spec. Qed.
 Print Assumptions C01_node_closedb_spec.
+
+(* the node-uuid validation of FlowParser._compile_flow (model Flow/NodeIdCheck.v, tied to the code by
+   differential execution): it passes exactly the duplicate-free lists, and the id it names is a repeated one *)
+Theorem C01_node_id_check_spec : forall us, first_repeated [] us = None <-> NoDup us.
+Proof. exact node_id_check_spec. Qed.
+Print Assumptions C01_node_id_check_spec.
+
+Theorem C01_node_id_check_names_repeated : forall us u,
+  first_repeated [] us = Some u -> exists l1 l2, us = l1 ++ u :: l2 /\ In u l1 /\ NoDup l1.
+Proof. exact node_id_check_names_repeated. Qed.
+Print Assumptions C01_node_id_check_names_repeated.
+
+Example C01_node_id_check_nonvacuous :
+  first_repeated [] [[97]; [98]; [99]; [98]; [97]]%N = Some [98]%N
+  /\ first_repeated [] [[97]; [98]; [99]]%N = None.
+Proof. exact node_id_check_nonvacuous. Qed.
+Print Assumptions C01_node_id_check_nonvacuous.
+
+(* decided for the code of this run: with the validation (compile_checks_node_uuids, probed), clause (a)
+   "node identifiers are unique" holds of every flow that passes _compile_flow, by construction; without it
+   (the defect duplicate-given-node-id) every flow passes *)
+Theorem C01_compile_validation_decided :
+  if compile_checks_node_uuids
+  then forall f, compile_flow_validation (node_uuids f) = None <-> NoDup (node_uuids f)
+  else forall us, compile_flow_validation us = None.
+Proof. exact compile_validation_decided. Qed.
+Print Assumptions C01_compile_validation_decided.
